@@ -92,10 +92,10 @@ def run(ctx):
     skip = skipped_ids()
 
     # (1) design check: protocol machine + request-class product against the as-found receive path (recorded triggers left out)
-    mc = ctx.cfg("IpcWireMC_run.cfg", 'CONSTANTS KFSkip = {%s}  Impl = "%s"\nSPECIFICATION Spec\n%s'
+    mc = ctx.cfg("IpcWireMC_run.cfg", 'CONSTANTS KFSkip = {%s}  Impl = "%s"  Big = %s\nSPECIFICATION Spec\n%s'
                  "INVARIANT JudgeOK\nINVARIANT CanFinish\nINVARIANT LeakRefused\nCHECK_DEADLOCK FALSE\n"
-                 % (kfset(skip), "asfound" if skip else "checked", INVS))
-    r = ctx.model_check("IpcWireMC.tla", mc, workers=W, timeout=900)
+                 % (kfset(skip), "asfound" if skip else "checked", "FALSE" if q else "TRUE", INVS))
+    r = ctx.model_check("IpcWireMC.tla", mc, workers=W, timeout=1500)
     ctx.check_vacuity(r, ACTIONS)
     #     the bounds of the proposed fixes hold on the whole product; the triggers are exactly where the as-found path fails
     ctx.model_check("IpcWireMC.tla", "IpcWireMC_checked.cfg", workers=W, timeout=600)
